@@ -18,9 +18,10 @@ connections IN FIRING ORDER.  Data outputs and signal inputs are compared as set
 (`C07_unordered_sides`).
 
 All theorems quantify over every graph (`Node` is a tree of any width and depth, proofs are by
-structural induction over it).  `Cfg.pinned` is the behaviour of the tree as it is, `Cfg.repaired`
-the behaviour with `fixes/C07-*.patch` applied.  Only property theorems live here; lemmas are in
-`Proofs/Serial.lean`.
+structural induction over it).  `Cfg.pinned` is the behaviour of the tree as this work found it,
+`Cfg.repaired` the behaviour with `fixes/C07-*.patch` applied — which is the tree as it is now (the
+harness probes the variant on the real code and tells the driver).  Only property theorems live
+here; lemmas are in `Proofs/Serial.lean`.
 -/
 namespace PwVerif.C07
 open PwVerif PwVerif.Serial
@@ -69,7 +70,7 @@ theorem C07_roundtrip_twice (g : Node) (hwf : WF g) :
 
 /-! ## the pinned code: partial statement -/
 
-/-- PARTIAL (the tree as it is): the round trip is faithful for every well-formed graph in which no
+/-- PARTIAL (any variant, in particular the tree as it was found): the round trip is faithful for every well-formed graph in which no
 data input holds more than one connection, no signal output fires more than one receiver, no
 composite holds a cache (`AtMostOne`), and re-forging the value links pushes nothing new (`Settled`:
 linked values in step, no linked owner running) — for ANY combination of the four repairs the same
@@ -217,7 +218,7 @@ theorem C07_restore_reverses_priority :
     after Cfg.pinned w1 (fun g' => (g'.data.inl (3, 0), fetchVal g' (3, 0))) = some ([(1, 0), (2, 0)], some (v 11)) ∧
     w1.data.inl (3, 0) = [(2, 0), (1, 0)] ∧ fetchVal w1 (3, 0) = some (v 12) := by decide
 
-/-- hence the full statement is FALSE of the tree as it is -/
+/-- hence the full statement is FALSE of the tree as it was found -/
 theorem C07_pinned_statement_false : ¬ RoundTripStatement Cfg.pinned := by
   intro h
   obtain ⟨g', h1, h2⟩ := h w1 wf_w1
